@@ -34,13 +34,13 @@ def run(replay=None):
         runs.append(T.run_tlc(wd, WIDE, known, 2, 3))
         runs.append(T.run_tlc(wd, WIDE, known, 2, 0, texts=T.random_texts(rnd, WIDE, 2, 4000, 4, 8)))
         # long texts with many clause keywords (case ids run into two digits)
-        runs.append(T.run_tlc(wd, CORE, known, 2, 0, texts=T.random_texts(rnd, CORE + [P("case", c=True), P("else"), P("end")], 2, 300, 14, 26)))
+        runs.append(T.run_tlc(wd, WIDE, known, 2, 0, texts=T.block_texts(rnd, 300, 3, 6), stride=1000000))
     else:
         runs.append(T.run_tlc(wd, CORE, known, 2, 5))
         runs.append(T.run_tlc(wd, WIDE, known, 2, 4))
         runs.append(T.run_tlc(wd, WIDE + [P("grp", ["1"]), P("grp", ["-"])], known, 3, 0,
                               texts=T.random_texts(rnd, WIDE + [P("grp", ["1"]), P("grp", ["-"])], 3, 40000, 4, 10)))
-        runs.append(T.run_tlc(wd, CORE, known, 2, 0, texts=T.random_texts(rnd, CORE + [P("case", c=True), P("else"), P("end")], 2, 3000, 14, 30)))
+        runs.append(T.run_tlc(wd, WIDE, known, 2, 0, texts=T.block_texts(rnd, 3000, 3, 8), stride=1000000))
     recs = []
     for r in runs:
         if r.violated:
